@@ -182,6 +182,9 @@ def _find_first_method_line(class_body: Node) -> int | None:
     for child in class_body.children:
         if child.type in ("method_definition", "function_declaration"):
             return child.start_point[0]
+        # A property holding an arrow function / function expression is a method written as a field
+        if child.type.endswith("field_definition") and _contains_function_body(child):
+            return child.start_point[0]
     return None
 
 
